@@ -136,3 +136,9 @@ _list_raw = r'''
        _hid, _fid, _cid)
 probe("src/list.c", [("raw", _list_raw, None)],
       pre='#define _GNU_SOURCE\n#include <stdio.h>\n#include <stdlib.h>\n#include <time.h>\n#include "safe.c"\n#include "filter.c"\n')
+
+# ---- src/extract.c, src/main.c: the length of the progress bar and the name / version in the usage text
+probe("src/extract.c", [("macro", "MAX_PROGRESS_LEN", "MAX_PROGRESS_LEN"),
+                        ("str", "PACKAGE_NAME", "PACKAGE_NAME"),
+                        ("str", "PACKAGE_VERSION", "PACKAGE_VERSION")],
+      pre='#include "config.h"\n#include "safe.c"\n#include "filter.c"\n')
